@@ -160,7 +160,7 @@ def c02(run, refs, qrys):
 
 
 # ------------------------------------------------------------------------------------------------ C03 end to end
-def c03(run):
+def c03(run, events=()):
     from bcheck.c03 import decode
     viol = []
     for sfx, text in run.files.items():
@@ -169,9 +169,12 @@ def c03(run):
             pairs = rec['_pairs']
             if not pairs:
                 continue
-            # only valid matchings are in the scope of C03 (C01 covers validity)
+            # a record whose matching is invalid because of one of the known conflict-resolution findings (K1/K2, reported under
+            # C01/C15) is that finding's consequence, not a new C03 failure; any other invalid record is judged like every record
             if c01_pairs(pairs, rec['Orientation'], 10 ** 9, 10 ** 9):
-                continue
+                mechs = conflict_mechanisms(events, int(rec['QryContigID']))
+                if mechs and all(m[1] for m in mechs):
+                    continue
             bad = decode(rec['HitEnum'], pairs, 1 if rec['Orientation'] == '+' else -1)
             for b in bad:
                 viol.append((f"src/alignment/alignment_results.py::AlignmentResultRow.cigarString::monitor::C03::{b}", None,
